@@ -5,6 +5,7 @@ Abstract value of a variable = set of origins
     ('V', p)   an object that may share memory with parameter p (view / element)
     ('A', a)   the object stored in self.a          ('VA', a) a view of it
     ('G', g)   a module-level mutable object        ('VG', g) a view of it
+    ('M', fq)  the object returned by the memoised function fq (kept in its cache)   ('VM', fq) a view of it
 (empty set = freshly created in this function).  Structured statements are
 interpreted with a fork per branch and a join afterwards; loops run to a
 fixpoint.  Summaries (mutates / returns-alias / effects) are propagated over the
@@ -58,6 +59,14 @@ MEMO_DECORATORS = ("lru_cache", "cache", "memoize", "cached")
 SCALAR_DOC = re.compile(r"^\s*([A-Za-z_][A-Za-z_0-9]*)\s*\(\s*(int|float|str|string|bool|boolean|tuple)\s*(,\s*optional\s*)?\)", re.M)
 
 
+def is_memoised(finfo):
+    for d in finfo.node.decorator_list:
+        txt = norm_text(d)
+        if any(k == txt.split("(")[0].split(".")[-1] for k in MEMO_DECORATORS):
+            return True
+    return False
+
+
 class Event(object):
     def __init__(self, kind, origin, node, func, how, chain=""):
         self.kind = kind        # 'data' | 'meta'
@@ -89,6 +98,9 @@ class Summary(object):
         self.rng_draws = []         # [(node, receiver origins)]
         self.calls = []             # [(node, binding)]
         self.clock = []             # [(node, dotted)]
+        self.memo_mut = {}          # memoised function fq -> [Event]: its cached result is modified in place
+        self.returns_memo = set()   # memoised functions whose cached result object this function may return
+        self.returns_global = set() # module-level objects (or objects stored in them) this function may return
 
     def sig(self):
         return (tuple(sorted((p, len(v)) for p, v in self.mutates.items())),
@@ -96,7 +108,8 @@ class Summary(object):
                 tuple(sorted((a, len(v)) for a, v in self.attr_mut.items())),
                 tuple(sorted((a, tuple(sorted(map(str, o)))) for a, o in self.attr_bind.items())),
                 tuple(sorted((g, len(v)) for g, v in self.global_mut.items())),
-                len(self.rng_global))
+                len(self.rng_global), tuple(sorted((g, len(v)) for g, v in self.memo_mut.items())),
+                tuple(sorted(self.returns_memo)), tuple(sorted(self.returns_global)))
 
 
 def view_of(origins):
@@ -109,6 +122,8 @@ def view_of(origins):
             out.add(("VA", o[1]))
         elif k == "G":
             out.add(("VG", o[1]))
+        elif k == "M":
+            out.add(("VM", o[1]))
         else:
             out.add(o)
     return frozenset(out)
@@ -223,6 +238,10 @@ class _Analysis(object):
                 self.S.attr_mut.setdefault(o[1], []).append(Event(kind, o, node, self.f, how))
             elif k in ("G", "VG"):
                 self.S.global_mut.setdefault(o[1], []).append(Event(kind, o, node, self.f, how))
+            elif k in ("M", "VM"):
+                if kind == "meta" and k != "M":
+                    continue
+                self.S.memo_mut.setdefault(o[1], []).append(Event(kind, o, node, self.f, how))
 
     # ---- statements
     def stmt(self, st, env):
@@ -269,6 +288,10 @@ class _Analysis(object):
                         self.S.returns_alias.add(o[1])
                     elif o[0] in ("A", "VA"):
                         self.S.returns_attr.add(o[1])
+                    elif o[0] in ("M", "VM"):
+                        self.S.returns_memo.add(o[1])
+                    elif o[0] in ("G", "VG"):
+                        self.S.returns_global.add(o[1])
             return None
         if isinstance(st, ast.Raise):
             if st.exc is not None:
@@ -520,6 +543,12 @@ class _Analysis(object):
             if s is None:
                 return frozenset()
             out = frozenset()
+            if is_memoised(callee):
+                out |= frozenset([("M", callee.fq)])
+            for g in s.returns_memo:
+                out |= frozenset([("M", g)])
+            for g in s.returns_global:
+                out |= frozenset([("VG", g)])
             for p, a in self.bind(callee, c):
                 if p in s.returns_alias:
                     out |= view_of(self.origins(a, env))
